@@ -353,6 +353,11 @@ class IOPort(BaseIOPort):
     def _receive(self, block=True):
         return self.input.receive(block=block)
 
+    def receive(self, block=True):
+        # The message queue is the input port's and only its lock
+        # protects it, so leave checking and popping to the input port.
+        return self.input.receive(block=block)
+
 
 class EchoPort(BaseIOPort):
     def _send(self, message):
